@@ -93,4 +93,130 @@ theorem irr_zero : Irr 0 := by
   · intro s s' cs h _; simp only [execCommands]; exact ⟨h, rfl⟩
   · intro s s' cs f h _; simp only [execPipeMembers]; exact ⟨h, rfl⟩
 
+
+theorem irr_list (fuel : Nat) (ih : Irr fuel) :
+    ∀ s s' l, SameButErrexit s s' → Cond s → Rel (execList (fuel+1) s l) (execList (fuel+1) s' l) := by
+  intro s s' l h hc
+  cases l with
+  | nil => simp only [execList]; exact rel_mk h
+  | cons it rest =>
+    simp only [execList]
+    have h1 := ih.item s s' it h hc
+    have b1 := (bal fuel).item s it
+    obtain ⟨e1, he1⟩ := rel_rewrite h1
+    rw [he1]
+    generalize execItem fuel s it = x at *
+    obtain ⟨s1, r⟩ := x
+    cases r with
+    | continue_ => exact ih.list s1 _ rest ⟨e1, rfl⟩ (cond_of_stack b1 hc)
+    | break_ d => exact rel_mk ⟨e1, rfl⟩
+    | outOfFuel => exact rel_mk ⟨e1, rfl⟩
+
+theorem irr_item (fuel : Nat) (ih : Irr fuel) :
+    ∀ s s' i, SameButErrexit s s' → Cond s → Rel (execItem (fuel+1) s i) (execItem (fuel+1) s' i) := by
+  intro s s' i h hc
+  obtain ⟨first, rest⟩ := i
+  cases rest with
+  | nil => simp only [execItem]; exact ih.pipe s s' first h hc
+  | cons a t =>
+    simp only [execItem]
+    have h1 := ih.pipe (s.push .condition) (s'.push .condition) first (sbe_push h _) (cond_push_condition s)
+    have b1 := (bal fuel).pipe (s.push .condition) first
+    obtain ⟨e1, he1⟩ := rel_rewrite h1
+    rw [he1]
+    generalize execPipeline fuel (s.push .condition) first = x at *
+    obtain ⟨s1, r⟩ := x
+    simp only [push_stack] at b1
+    cases r with
+    | continue_ => exact ih.aor s1 _ (a :: t) s.stack ⟨e1, rfl⟩ b1 hc
+    | break_ d => exact rel_mk (sbe_pop ⟨e1, rfl⟩)
+    | outOfFuel => exact rel_mk (sbe_pop ⟨e1, rfl⟩)
+
+theorem irr_aor (fuel : Nat) (ih : Irr fuel) :
+    ∀ s s' r st, SameButErrexit s s' → s.stack = .condition :: st → st.contains .condition = true →
+      Rel (execAndOrRest (fuel+1) s r) (execAndOrRest (fuel+1) s' r) := by
+  intro s s' r st h hst hcst
+  have hc : Cond s := by unfold Cond; rw [hst]; simp
+  have hpop : Cond s.pop := by unfold Cond; rw [pop_stack, hst]; exact hcst
+  obtain ⟨e0, rfl⟩ := h
+  match r with
+  | [] => simp only [execAndOrRest]; exact rel_mk ⟨e0, rfl⟩
+  | [(a, p)] =>
+    simp only [execAndOrRest]
+    show Rel (if (s.pop.status = 0) = (a = true) then execPipeline fuel s.pop p else (s.pop, Res.continue_))
+      (if (s.pop.status = 0) = (a = true) then execPipeline fuel ({ s with errexit := e0 }).pop p
+        else (({ s with errexit := e0 }).pop, Res.continue_))
+    split
+    · exact ih.pipe s.pop _ p ⟨e0, rfl⟩ hpop
+    · exact rel_mk ⟨e0, rfl⟩
+  | (a, p) :: b :: t =>
+    simp only [execAndOrRest]
+    show Rel (if (s.status = 0) = (a = true) then _ else _) (if (s.status = 0) = (a = true) then _ else _)
+    split
+    · have h1 := ih.pipe s { s with errexit := e0 } p ⟨e0, rfl⟩ hc
+      have b1 := (bal fuel).pipe s p
+      obtain ⟨e1, he1⟩ := rel_rewrite h1
+      rw [he1]
+      generalize execPipeline fuel s p = x at *
+      obtain ⟨s1, r⟩ := x
+      simp only at b1
+      cases r with
+      | continue_ => exact ih.aor s1 _ (b :: t) st ⟨e1, rfl⟩ (b1.trans hst) hcst
+      | break_ d => exact rel_mk (sbe_pop ⟨e1, rfl⟩)
+      | outOfFuel => exact rel_mk (sbe_pop ⟨e1, rfl⟩)
+    · exact ih.aor s _ (b :: t) st ⟨e0, rfl⟩ hst hcst
+
+
+theorem irr_pipe (fuel : Nat) (ih : Irr fuel) :
+    ∀ s s' p, SameButErrexit s s' → Cond s → Rel (execPipeline (fuel+1) s p) (execPipeline (fuel+1) s' p) := by
+  intro s s' p h hc
+  obtain ⟨neg, cmds⟩ := p
+  simp only [execPipeline]
+  split
+  · exact ih.cmds s s' cmds h hc
+  · have h1 := ih.cmds (s.push .condition) (s'.push .condition) cmds (sbe_push h _) (cond_push_condition s)
+    obtain ⟨e1, he1⟩ := rel_rewrite h1
+    rw [he1]
+    generalize execCommands fuel (s.push .condition) cmds = x at *
+    obtain ⟨s1, r⟩ := x
+    cases r with
+    | continue_ => exact rel_mk ⟨e1, rfl⟩
+    | break_ d => exact rel_mk ⟨e1, rfl⟩
+    | outOfFuel => exact rel_mk ⟨e1, rfl⟩
+
+theorem sbe_applyResult {a b : St} (h : SameButErrexit a b) (r : Res) :
+    SameButErrexit (a.applyResult r) (b.applyResult r) := by
+  obtain ⟨e, rfl⟩ := h
+  unfold St.applyResult
+  split
+  · split <;> exact ⟨e, rfl⟩
+  · exact ⟨e, rfl⟩
+
+theorem irr_members (fuel : Nat) (ih : Irr fuel) :
+    ∀ s s' cs f, SameButErrexit s s' → Cond s →
+      Rel (execPipeMembers (fuel+1) s cs f) (execPipeMembers (fuel+1) s' cs f) := by
+  intro s s' cs f h hc
+  cases cs with
+  | nil => simp only [execPipeMembers]; obtain ⟨e, rfl⟩ := h; exact rel_mk ⟨e, rfl⟩
+  | cons c rest =>
+    simp only [execPipeMembers]
+    have h1 := ih.cmd (s.push .subshell) (s'.push .subshell) c (sbe_push h _) (cond_push s _ hc)
+    obtain ⟨e1, he1⟩ := rel_rewrite h1
+    rw [he1]
+    generalize execCmd fuel (s.push .subshell) c = x at *
+    obtain ⟨c1, r⟩ := x
+    obtain ⟨e0, rfl⟩ := h
+    cases r with
+    | outOfFuel => exact rel_mk ⟨e0, rfl⟩
+    | continue_ =>
+      simp only [St.applyResult]
+      exact ih.members _ _ rest _ ⟨e0, rfl⟩ (cond_of_stack rfl hc)
+    | break_ d =>
+      simp only
+      have hst : ({ c1 with errexit := e1 } : St).applyResult (.break_ d) =
+          { c1.applyResult (.break_ d) with errexit := e1 } := by
+        unfold St.applyResult; split <;> [split <;> rfl; rfl]
+      rw [hst]
+      exact ih.members _ _ rest _ ⟨e0, rfl⟩ (cond_of_stack rfl hc)
+
 end YashModel.Exec
